@@ -8,7 +8,7 @@
 using namespace vl;
 namespace gil = boost::gil;
 
-enum Tail { T_NONE = 0, T_NTH = 1, T_CC_GRAY8 = 2, T_CC_RGB8 = 3, T_KTH0 = 4 };
+enum Tail { T_NONE = 0, T_NTH = 1, T_CC_GRAY8 = 2, T_CC_RGB8 = 3, T_KTH0 = 4, T_CC_NTH = 5 };
 
 struct Ctx
 {
@@ -140,6 +140,31 @@ template <class Dst, class V, class RootV> static void check_cc(V const& v, Mode
     });
 }
 
+// a channel view on top of a colour-converted view: two dereference adaptors, the outer one with state (the channel index);
+// the post ops put step iterators around them
+template <class V, class RootV> static void check_cc_nth(V const& v, Model const& m, RootV const& root, Prog const& post, int n)
+{
+    using Dst = gil::bgr8_pixel_t;
+    auto nv = gil::nth_channel_view(gil::color_converted_view<Dst>(v), n);
+    Model m2 = m;
+    run_ops(nv, post, 0, [&](auto const& pv) {
+        VCHECK(m2.apply_all(post), "model rejected post ops");
+        VCHECK(pv.width() == m2.w && pv.height() == m2.h, "nth_channel_view(color_converted_view) has dimensions", pv.width(), pv.height(), "model says", m2.w, m2.h);
+        for (i64 y = 0; y < m2.h; ++y)
+            for (i64 x = 0; x < m2.w; ++x)
+            {
+                i64 rx, ry;
+                m2.root(x, y, rx, ry);
+                Dst e;
+                gil::color_convert(root(rx, ry), e);
+                typename std::decay_t<decltype(pv)>::value_type got = pv(x, y);
+                VCHECK(get_ch(got, 0) == get_ch(e, n), "nth_channel_view(color_converted_view<bgr8>(v),", n, ") after the post ops: pixel", x, y, "is", get_ch(got, 0), "but channel", n, "of the converted source pixel", rx, ry, "is", get_ch(e, n));
+                typename std::decay_t<decltype(pv)>::value_type viait = pv.row_begin(y)[x];
+                VCHECK(get_ch(viait, 0) == get_ch(e, n), "same through row_begin(y)[x]", x, y);
+            }
+    });
+}
+
 static bool valid_progs(Case const& c, Model& m)
 {
     m.w = c.get("w");
@@ -210,6 +235,7 @@ static void run_case(Case const& c)
                 {
                     if (tail == T_CC_GRAY8) check_cc<gil::gray8_pixel_t>(v, m, root, post);
                     else if (tail == T_CC_RGB8) check_cc<gil::rgb8_pixel_t>(v, m, root, post);
+                    else if (tail == T_CC_NTH) check_cc_nth(v, m, root, post, tparam % 3);
                 }
             });
         });
@@ -277,7 +303,7 @@ static Case gen_case(bool thorough)
     m.h = h;
     Prog p = gen_prog(m, thorough ? 4 : 3);
     c.set("prog", prog_to(p));
-    int tail = verif::weighted({50, 18, 10, 10, 12});
+    int tail = verif::weighted({46, 16, 9, 9, 10, 10});
     c.set("tail", {tail, verif::pick(0, 4)});
     Prog post;
     if (tail != T_NONE) post = gen_prog(m, 2);
@@ -305,7 +331,7 @@ void verif_run(verif::Args const& a, verif::Evidence& ev)
     bool th = a.thorough();
     ev.rule = "rapidcheck cases = (configuration from the group's share of 28 image types, root = image with alignment in {0,1,2,4,8,16,32} or exact-size buffer between guard pages, "
               "w,h in 0..8 (12 thorough, occasionally 17/33/63/64) with degenerate shapes weighted in, program of up to 3 (4) ops from flipUD/LR, transpose, rot90cw/ccw, rot180, subimage, subsample(1..4), "
-              "tail in {none, nth_channel, kth_channel, color_converted<gray8>, color_converted<rgb8>} + up to 2 post ops, one write). oracle: dimensions and EVERY pixel against the affine model over identity tags, "
+              "tail in {none, nth_channel, kth_channel, color_converted<gray8>, color_converted<rgb8>, nth_channel of color_converted<bgr8>} + up to 2 post ops, one write). oracle: dimensions and EVERY pixel against the affine model over identity tags, "
               "shallow write leaves every other root pixel/channel and the root buffer untouched, 7 algebraic identities pixel- and address-wise. "
               "non-trivial: root non-square with both dims >= 2, >= 2 ops, at least one transposing or sub-sampling op; distinct = (cfg, root kind, shape, program, tail, post).";
     int cases = th ? 400000 : 25000;
